@@ -16,7 +16,7 @@ func c14Tier(tier string) (push, seqs int) {
 	if tier == "thorough" {
 		return 700000, 300000
 	}
-	return 14000, 6000
+	return 140000, 60000
 }
 
 func c14Push(c *core.Ctx) {
